@@ -24,7 +24,10 @@ def run_case(job):
     mode = var.get("mode", "bidirectional")
     net = pp.create_empty_network("loop", fluid=D.fluid())
     tn = var.get("tn", 340.0)
-    jF, jS, jR, jB = [pp.create_junction(net, 5.0, tn, index=i) for i in var.get("labels", [0, 1, 2, 3])]
+    labs = var.get("labels", [0, 1, 2, 3])
+    # a pump of type "p" (created without a flow temperature) feeds with the start temperature of its flow junction: that junction then carries the
+    # designed feed temperature of 360 K, all others the start value tn
+    jF, jS, jR, jB = [pp.create_junction(net, 5.0, 360.0 if (k == 0 and var.get("ptype") == "p") else tn, index=i) for k, i in enumerate(labs)]
     Mtot = sum(c["m"] for c in l["cons"])
     p2 = int(l.get("p2", 0))
     M = Mtot - p2                 # flow through the main pump and the two pipes
@@ -37,11 +40,11 @@ def run_case(job):
     ts = AMB[l["te"]] + (360.0 - AMB[l["te"]]) * FAC[l["fs"]]            # inputs that depend on the supply temperature (treturn, qext of QE_TR)
     ts = (M * ts + p2 * 345.0) / Mtot
     if l["pump"] == "pressure":
-        pump = ("circ_pump_pressure", pp.create_circ_pump_const_pressure(net, jB, jF, p_flow_bar=6.0, plift_bar=2.0, t_flow_k=360.0,
-                                                                        type=var.get("ptype", "pt")))
+        pump = ("circ_pump_pressure", pp.create_circ_pump_const_pressure(net, jB, jF, p_flow_bar=6.0, plift_bar=2.0,
+                                                                        t_flow_k=None if var.get("ptype") == "p" else 360.0, type=var.get("ptype", "pt")))
     else:
         pump = ("circ_pump_mass", pp.create_circ_pump_const_mass_flow(net, jB, jF, p_flow_bar=6.0, mdot_flow_kg_per_s=float(M),
-                                                                    t_flow_k=360.0, type=var.get("ptype", "pt")))
+                                                                    t_flow_k=None if var.get("ptype") == "p" else 360.0, type=var.get("ptype", "pt")))
     pp.create_pipe_from_parameters(net, jF, jS, u_w_per_m2k=alpha(l["fs"]), sections=var.get("sec", 2), **pkw)
     pump2 = None
     if p2:          # second producer: fixes only its feed temperature
@@ -135,7 +138,8 @@ def run(prop, clause_prefixes, nq=500, V=None, evidence=True):
     jobs = []
     for i, l in enumerate(ls):
         for j, v in enumerate([{"mode": "bidirectional"}, {"mode": "sequential"}, {"mode": "bidirectional", "tn": 300.0, "labels": [7, 3, 12, 5], "sec": 3},
-                               {"mode": "bidirectional", "ptype": "t" if l["pump"] == "mass" else "pt", "tn": 355.0}]):
+                               {"mode": "bidirectional", "ptype": "t" if l["pump"] == "mass" else "pt", "tn": 355.0},
+                               {"mode": "sequential" if i % 2 else "bidirectional", "ptype": "p", "tn": 335.0, "labels": [4, 9, 1, 6]}]):
             jobs.append({"id": "%s.%d.%d" % (prop, i, j), "l": l, "variant": v})
     if tr == "quick":
         jobs = rnd.sample(jobs, min(len(jobs), nq))
